@@ -93,7 +93,7 @@ func hoverKind(content string) string {
 var c08Fx map[string]bool
 
 // c08Fixes probes the real code with canary inputs for the delivered repairs
-// (fix-link-range: upstream 04b7a3e, fix-fold-ranges: upstream 4d2f7df, fix-utf16-columns).
+// (fix-link-range: upstream 04b7a3e, fix-fold-ranges: upstream 4d2f7df).
 func c08Fixes() map[string]bool {
 	if c08Fx != nil {
 		return c08Fx
@@ -108,9 +108,6 @@ func c08Fixes() map[string]bool {
 	fx["link"] = len(links) == 1 && links[0].Range.Start.Character == 8
 	folds, _ := srv.FoldingRanges(ctx, &protocol.FoldingRangeParams{TextDocumentPositionParams: protocol.TextDocumentPositionParams{TextDocument: td}})
 	fx["fold"] = len(folds) >= 1 && folds[0].StartLine == 1 && folds[0].EndLine == 3
-	// fix-utf16-columns.diff: columns count UTF-16 units ("; 😀" ends at column 5, not 4)
-	toks := parser.NewLexer("; \U0001F600")
-	fx["utf16"] = toks.Next().End.Column == 5
 	c08Fx = fx
 	return fx
 }
@@ -690,4 +687,9 @@ var c08Fixed = []string{
 	"include other.journal\n",
 	"2024-01-15 (c1)  Shop | note ; t:v\n    a:b ;c\n    (c:d )  1\n",
 	"2024-01-15 x ; café k:v\n    a:b    1    USD\n",
+	// characters outside the BMP in front of every kind of range (fix-utf16-positions)
+	"account a😀b:c\ncommodity \"😀\"\ncommodity 1.00 𝄞X\nP 2024-01-01 \"😀\" 2 €\ninclude em😀ji.journal\n\n" +
+		"2024-01-15 * 😀 party 𝄞 ; k:  v, e:, date:2024-01-02\n    a😀b:c  1 \"😀\" @ 2 USD = 3 \"😀\" ; t:   x\n    (x𝄞:y)  -1 USD\n    a😀b:c\n",
+	"2024-01-15 😀\n    a😀b:c  1 USD\n    q\U00010000z:w  bad amount 😀 here\n    a😀b:c  \n",
+	"2024-01-15 x ; k:v,   long-tag_1:    spaced value  , e:\n    a:b  1 ; k:   v\n    c:d\n",
 }
